@@ -66,6 +66,15 @@ type vfServerStream struct {
 	onSend    func(*adminservice.StreamWorkflowReplicationMessagesResponse) error
 	sendGate  chan error // non-nil: Send parks until the environment accepts or fails it
 	inSend    int
+	brk       chan struct{}
+}
+
+func (s *vfServerStream) breakNow() {
+	if !s.broken {
+		s.broken = true
+		close(s.brk)
+		s.cancel()
+	}
 }
 
 func vfNewServerStream(client, server history.ClusterShardID, extraMD map[string]string) *vfServerStream {
@@ -78,7 +87,7 @@ func vfNewServerStream(client, server history.ClusterShardID, extraMD map[string
 		md.Set(k, v)
 	}
 	ctx, cancel := context.WithCancel(metadata.NewIncomingContext(context.Background(), md))
-	return &vfServerStream{ctx: ctx, cancel: cancel, recvQ: make(chan vfItem, 256)}
+	return &vfServerStream{ctx: ctx, cancel: cancel, recvQ: make(chan vfItem, 256), brk: make(chan struct{})}
 }
 
 func (s *vfServerStream) Context() context.Context { return s.ctx }
@@ -90,6 +99,8 @@ func (s *vfServerStream) Recv() (*adminservice.StreamWorkflowReplicationMessages
 	select {
 	case it := <-s.recvQ:
 		return it.req, it.err
+	case <-s.brk:
+		return nil, errVfBroken
 	case <-s.ctx.Done():
 		return nil, status.Error(codes.Canceled, "verif: stream context cancelled")
 	}
@@ -127,6 +138,14 @@ type vfClientStream struct {
 	ended      bool // peer ended the stream (EOF queued)
 	onSend     func(*adminservice.StreamWorkflowReplicationMessagesRequest) error
 	client, sv history.ClusterShardID
+	brk        chan struct{}
+}
+
+func (c *vfClientStream) breakNow() {
+	if !c.broken {
+		c.broken = true
+		close(c.brk)
+	}
 }
 
 func (c *vfClientStream) Context() context.Context { return c.ctx }
@@ -140,6 +159,8 @@ func (c *vfClientStream) Recv() (*adminservice.StreamWorkflowReplicationMessages
 	select {
 	case it := <-c.recvQ:
 		return it.resp, it.err
+	case <-c.brk:
+		return nil, errVfBroken
 	case <-c.ctx.Done():
 		return nil, status.Error(codes.Canceled, "verif: stream context cancelled")
 	}
@@ -185,7 +206,7 @@ type vfAdminClient struct {
 
 func (a *vfAdminClient) StreamWorkflowReplicationMessages(ctx context.Context, _ ...grpc.CallOption) (adminservice.AdminService_StreamWorkflowReplicationMessagesClient, error) {
 	md, _ := metadata.FromOutgoingContext(ctx)
-	cs := &vfClientStream{ctx: ctx, md: md.Copy(), recvQ: make(chan vfItem, 256)}
+	cs := &vfClientStream{ctx: ctx, md: md.Copy(), recvQ: make(chan vfItem, 256), brk: make(chan struct{})}
 	get := func(k string) int32 {
 		var n int32
 		if v := md.Get(k); len(v) > 0 {
@@ -276,6 +297,7 @@ type vfTgtStream struct {
 
 type vfSrc struct {
 	idx      int
+	script   []vfBatch // what the source will send on the current pull stream (resumes from its acked level after a reconnect)
 	pos      int
 	wmUsed   int
 	curHigh  int64
@@ -397,7 +419,7 @@ func vfNewRouteExec(sc *vfRouteScenario) *vfRouteExec {
 		panic(err)
 	}
 	for i := 1; i <= sc.NS; i++ {
-		e.src = append(e.src, &vfSrc{idx: i, curHigh: sc.InitHigh})
+		e.src = append(e.src, &vfSrc{idx: i, curHigh: sc.InitHigh, script: sc.Scripts[i-1]})
 	}
 	for k := 1; k <= sc.NT; k++ {
 		e.tgt = append(e.tgt, &vfTgt{idx: k})
@@ -440,6 +462,40 @@ func (e *vfRouteExec) onSourcePullOpen(cs *vfClientStream) error {
 	p := &vfSrcPull{vfClientStream: cs}
 	inc := len(s.pulls)
 	s.pulls = append(s.pulls, p)
+	if inc > 0 {
+		// Temporal's sender resumes reading from the level the receiver acknowledged
+		level := int64(-1)
+		for _, old := range s.pulls[:inc] {
+			for _, a := range old.acks {
+				if a > level {
+					level = a
+				}
+			}
+		}
+		var rest []vfBatch
+		for _, b := range e.sc.Scripts[s.idx-1] {
+			nb := vfBatch{High: b.High}
+			for i, id := range b.IDs {
+				if id >= level {
+					nb.IDs = append(nb.IDs, id)
+					nb.Tgt = append(nb.Tgt, b.Tgt[i])
+					if i < len(b.NS) {
+						nb.NS = append(nb.NS, b.NS[i])
+					}
+				}
+			}
+			if len(nb.IDs) > 0 {
+				rest = append(rest, nb)
+			}
+		}
+		s.script, s.pos = rest, 0
+		// a watermark-only batch says "nothing below this is unsent": on a new stream that is the resume level
+		s.curHigh = e.sc.InitHigh
+		if level > s.curHigh {
+			s.curHigh = level
+		}
+		e.logf("S%d resumes from acknowledged level %d: %d batches to (re)send", s.idx, level, len(rest))
+	}
 	cs.onSend = func(m *adminservice.StreamWorkflowReplicationMessagesRequest) error {
 		st := m.GetSyncReplicationState()
 		if st == nil {
@@ -500,7 +556,7 @@ func (e *vfRouteExec) makeTask(src int, id int64, tgt int, nsVariant int) *repli
 // fault actions, which rewind pos).
 func (e *vfRouteExec) emit(s *vfSrc) {
 	p := s.pull()
-	b := e.sc.Scripts[s.idx-1][s.pos]
+	b := s.script[s.pos]
 	s.pos++
 	msgs := &replicationv1.WorkflowReplicationMessages{ExclusiveHighWatermark: b.High, Priority: enumsspb.TASK_PRIORITY_HIGH}
 	for i, id := range b.IDs {
@@ -509,7 +565,15 @@ func (e *vfRouteExec) emit(s *vfSrc) {
 			nsv = b.NS[i]
 		}
 		msgs.ReplicationTasks = append(msgs.ReplicationTasks, e.makeTask(s.idx, id, b.Tgt[i], nsv))
-		e.returned = append(e.returned, vfTaskRec{Src: s.idx, ID: id, Tag: vfTag(s.idx, id), Tgt: b.Tgt[i], NSV: nsv, Pull: len(s.pulls) - 1})
+		known := false
+		for _, r := range e.returned {
+			if r.Src == s.idx && r.ID == id {
+				known = true
+			}
+		}
+		if !known {
+			e.returned = append(e.returned, vfTaskRec{Src: s.idx, ID: id, Tag: vfTag(s.idx, id), Tgt: b.Tgt[i], NSV: nsv, Pull: len(s.pulls) - 1})
+		}
 	}
 	s.curHigh = b.High
 	if b.High > p.maxHigh {
@@ -558,19 +622,25 @@ func (e *vfRouteExec) onSourceAck(s *vfSrc, inc int, a int64) {
 		ds := e.deliv[r.Tag]
 		kind := "not-forwarded"
 		ok := false
+		liveHolder := false
 		for _, d := range ds {
 			ts := e.tgt[d.Tgt-1].incoming[d.Inc]
-			if len(ts.acks) == 0 {
-				if kind == "not-forwarded" {
-					kind = "target-never-acked"
-				}
-				continue
+			if !ts.broken && !ts.returned {
+				liveHolder = true
 			}
-			kind = "target-acked-below"
 			for _, w := range ts.acks {
 				if w > d.ProxyID {
 					ok = true
 				}
+			}
+		}
+		if len(ds) > 0 {
+			switch {
+			case !liveHolder:
+				// forwarded only on target streams that have since ended; the target's later stream(s) never saw it
+				kind = "unconfirmed-task-on-dead-target-stream"
+			default:
+				kind = "live-target-has-not-confirmed"
 			}
 		}
 		if !ok {
@@ -813,7 +883,7 @@ func (e *vfRouteExec) stateKey() string {
 	var sb strings.Builder
 	fmt.Fprintf(&sb, "t=%d f=%d|", e.now, e.faults)
 	for _, s := range e.src {
-		fmt.Fprintf(&sb, "S%d pos=%d wm=%d high=%d in=%d[", s.idx, s.pos, s.wmUsed, s.curHigh, len(s.incoming))
+		fmt.Fprintf(&sb, "S%d pos=%d/%v wm=%d high=%d in=%d[", s.idx, s.pos, s.script, s.wmUsed, s.curHigh, len(s.incoming))
 		for _, in := range s.incoming {
 			fmt.Fprintf(&sb, "%v/%v/%v,", in.returned, in.broken, in.atHome())
 		}
@@ -960,5 +1030,9 @@ func (e *vfRouteExec) teardown(wait func()) []string {
 		time.Sleep(3 * time.Second)
 		wait()
 	}
+	// workers that outlive their handler (the sender's ack loop is deliberately not waited for) may sit in
+	// a back-off sleep of up to 1.28 s before they look at the shutdown signal again
+	time.Sleep(3 * time.Second)
+	wait()
 	return stuck
 }
